@@ -22,6 +22,7 @@ type Plan struct {
 	OrderSalt uint64           `json:"order_salt"`
 	Deadline  time.Duration    `json:"deadline"` // absolute simulated time
 	Settle    time.Duration    `json:"settle"`   // extra simulated time after the last op completes
+	RunFor    time.Duration    `json:"run_for,omitempty"` // the workload phase lasts at least this long (histories without client ops)
 	Extra     map[string]any   `json:"extra,omitempty"`
 }
 
